@@ -1056,7 +1056,7 @@ fn dispatch(plan: &Plan, from_str_too: bool) -> (Option<Res3>, Res3, bool, u32) 
 /// C14 speaks about UTF-8 documents "not declaring another encoding": anything that
 /// looks like an encoding pseudo-attribute with a value other than UTF-8 is excluded
 /// from the comparison (conservatively: anywhere in the document).
-fn declares_other_encoding(doc: &[u8]) -> bool {
+pub fn declares_other_encoding(doc: &[u8]) -> bool {
     let lower: Vec<u8> = doc.iter().map(|b| b.to_ascii_lowercase()).collect();
     let needle = b"encoding";
     let mut i = 0;
